@@ -467,3 +467,6 @@ def run(ctx) -> None:
     C12.ensembler(ctx)  # discharges the roles assumed for `folds` in the stacking builders (Fold fields come from the fold's own scope segments)
     primitives(ctx)
     shared.argname_scope(ctx, ('forml.flow._suite', 'forml.flow._graph', 'forml.pipeline', 'forml.evaluation._stage'), floor=2)
+    # composition code wires one branch per mapper / base / fold: nothing is built from a loop variable after its loop
+    mods = [m for m in ctx.prog.modules if m.startswith(('forml.flow._suite', 'forml.flow._graph', 'forml.pipeline', 'forml.evaluation'))]
+    ctx.floor('R-STALELOOP', shared.r_staleloop(ctx, ctx.prog.functions(mods)), 8)
